@@ -219,6 +219,13 @@ inline void m_plans(const Edge& e, const Parsed& P, unsigned props) {
 		// converse, stated on its own: first task's origin active, success outstanding, no failure report in this cycle
 		if (!e.initial && planNonEmptyAtStep && !anyFailCallThisCycle && nF == 0 && expectOutcome == 0) { /* nothing was due by the model; the converse antecedent is evaluated inside the model */ }
 	}
+#if VX_PAYLOAD
+	if (props & (1u << C07)) {   // a task appended with a payload is in the plan with that payload, one appended without shows none (until it fires or is removed)
+		bool same = e.post.planlen == m.len; for (int k = 0; same && k < m.len && k < MAXPLAN; ++k) same = task_eq(e.post.plan[k], m.plan[k]);
+		bool anyPayload = false; for (int k = 0; k < m.len && k < MAXPLAN; ++k) if (m.plan[k].set) anyPayload = true; for (int k = 0; k < e.post.planlen && k < MAXPLAN; ++k) if (e.post.plan[k].set) anyPayload = true;
+		if (!same && anyPayload && !ghost) flag(C07, "task-payload-lost", e, "the plan holds %d task(s) after the call, the appended and not yet consumed ones are %d; a payload-carrying task is missing, duplicated or shows another payload", e.post.planlen, m.len);
+	}
+#endif
 	if (c08) {
 		bool same = e.post.planlen == m.len; for (int k = 0; same && k < m.len && k < MAXPLAN; ++k) same = task_eq(e.post.plan[k], m.plan[k]);
 		if (!same) flag(C08, "plan-content-after-call", e, "plan holds %d tasks, expected %d (fired tasks removed, others kept in order)", e.post.planlen, m.len);
@@ -397,6 +404,13 @@ inline void m15(const Edge& e, const Parsed&) {
 	}
 }
 
+// =========================================================================== C14 (explorer part): callbacks run on the objects access<T>() names
+inline void m14(const Edge& e, const Parsed&) {
+	for (int i = 0; i < e.nev; ++i) { const Ev& v = e.tr[i]; if (v.kind == EV_MARK) break; if (v.kind != EV_CB) continue;
+		if (!(v.flags & OF_THIS)) { flag(C14, "access-identity", e, "ev %d: %s of %s%d (injection %d) ran on an object that is not the one access<T>() returns (const and non-const overloads)", i, METH_NAME[v.meth], v.sid == ROOT ? "R" : "S", v.sid == ROOT ? 0 : v.sid, v.inj); break; }
+		if (v.ctl_sid != v.sid) { flag(C14, "control-stateId", e, "ev %d: control.stateId() = %d inside %s of state %d", i, v.ctl_sid, METH_NAME[v.meth], v.sid); break; } }
+}
+
 // =========================================================================== C16: logging
 inline void m16(const Edge& e, const Parsed&) {
 #if VX_LOG
@@ -520,6 +534,7 @@ inline void extra_monitors(const Edge& e, const Parsed& P, unsigned props) {
 	if (props & (1u << C10)) m10(e, P);
 #endif
 	if (props & (1u << C12)) m12(e, P);
+	if (props & (1u << C14)) m14(e, P);
 	if (props & (1u << C15)) m15(e, P);
 	if (props & (1u << C16)) m16(e, P);
 	if (props & (1u << C17)) m17(e, P);
